@@ -39,6 +39,7 @@ SPECIFICATION Spec
 INVARIANT NoFutureRows
 INVARIANT ReturnedDurable
 INVARIANT ReturnedAreDurable
+INVARIANT CrashAtomic
 INVARIANT LockExclusive
 PROPERTY LastWriterWins
 CHECK_DEADLOCK FALSE
